@@ -9,6 +9,51 @@ from vlib import CannotDecide, log
 from stages import tier_val
 
 
+RACE_FRAME = re.compile(r"^\s+(github\.com/honeycombio/refinery/.+)\(\)\s*$")
+
+
+def race_reports(output):
+    """Parse Go race detector reports: returns list of dict(signature, excerpt). The signature is the pair of
+    innermost refinery functions of the two conflicting accesses (stable across line-number changes)."""
+    reps = []
+    for block in output.split("WARNING: DATA RACE")[1:]:
+        block = block.split("==================")[0]
+        parts = re.split(r"\n(?=Previous (?:read|write) at |Goroutine \d+ )", block)
+        sides = []
+        for part in parts[:2]:
+            fn = None
+            for line in part.splitlines():
+                m = RACE_FRAME.match(line)
+                if m and "zzverif" not in line and "verifkit" not in line:
+                    fn = m.group(1).replace("github.com/honeycombio/refinery/", "")
+                    break
+            sides.append(fn or "?")
+        sig = " <-> ".join(sorted(sides))
+        reps.append(dict(signature=sig, excerpt=block.strip()[:3000]))
+    return reps
+
+
+def handle_races(ctx, st, name, output):
+    """For stages whose oracle includes the race detector (C35): each distinct race is a known finding or a violation."""
+    reps = race_reports(output)
+    seen = set()
+    for r in reps:
+        if r["signature"] in seen:
+            continue
+        seen.add(r["signature"])
+        f = vlib.open_finding(ctx.prop, "race: " + r["signature"])
+        if f:
+            ctx.known.append(f"{f['id']} {r['signature']}: {f['what'][:200]}")
+        else:
+            p = ctx.new_replay_path(name)
+            with open(p, "w") as fh:
+                json.dump(dict(property=ctx.prop, stage=name, kind="data-race", signature=r["signature"], report=r["excerpt"]), fh, indent=1)
+            log(f"[{ctx.prop}] DATA RACE {r['signature']}")
+            ctx.violations.append(p)
+    ctx.extra.setdefault("race_reports", []).append(dict(stage=name, distinct=len(seen)))
+    return len(reps)
+
+
 def split_traces(path):
     """Return list of (first_line_no, [lines]) per reset-delimited trace (1-based line numbers)."""
     traces = []
@@ -84,8 +129,12 @@ def stage_trace(ctx, st):
     env = dict(VERIF_TRACE_OUT=tp, VERIF_OUT=out, VERIF_SEED=ctx.seed, VERIF_BUDGET_S=budget, VERIF_TIER=ctx.tier)
     env.update(st.get("env", {}))
     g = vlib.run_go_test(st["pkg"], "^" + st["test"] + "$", env, timeout=budget + 600, harness_files=st["harness"], race=st.get("race", False))
-    if g["rc"] != 0 or not os.path.exists(tp):
+    if st.get("race_oracle") and "WARNING: DATA RACE" in g["out"]:
+        handle_races(ctx, st, name, g["out"])
+    elif g["rc"] != 0 or not os.path.exists(tp):
         raise CannotDecide(f"trace driver {st['pkg']}/{st['test']} failed (rc={g['rc']}):\n{g['out'][-4000:]}")
+    if not os.path.exists(tp):
+        raise CannotDecide(f"trace driver {st['pkg']}/{st['test']} wrote no trace (rc={g['rc']})")
     traces = split_traces(tp)
     nev = sum(len(t[1]) for t in traces)
     if nev < 2:
@@ -131,6 +180,8 @@ def stage_gotest(ctx, st):
         env["VERIF_REPLAY"] = ctx.replay
     env.update(st.get("env", {}))
     g = vlib.run_go_test(st["pkg"], "^" + st["test"] + "$", env, timeout=budget + 600, harness_files=st["harness"], race=st.get("race", False))
+    if st.get("race_oracle") and "WARNING: DATA RACE" in g["out"]:
+        handle_races(ctx, st, name, g["out"])
     if not os.path.exists(out):
         raise CannotDecide(f"driver {st['pkg']}/{st['test']} produced no result (rc={g['rc']}):\n{g['out'][-4000:]}")
     with open(out) as fh:
